@@ -1,0 +1,46 @@
+//go:build verif
+
+// Contracts for the deductive verification in /verif (govc).  This file is
+// comment-only: it adds no code.  Syntax: /verif/DESIGN.md section 2.4.
+
+package cli
+
+// The -dbg-ast / -dbg-lex developer flags and the version banner are outside the properties.
+//@ func cli.debugAst
+//@   trusted
+//@   updates nothing
+//@   modifies nothing
+//@ func cli.debugLex
+//@   trusted
+//@   updates nothing
+//@   modifies nothing
+//@ func cli.getCommit
+//@   trusted
+//@   pure
+
+//@ ghost $ranProgram bool
+//@ ghost $progErr error
+//@ ghost $truncating bool
+//@ ghost $json string
+
+//@ func cli.printError [C01,C14]
+//@   updates nothing
+
+// The command line (C14, C01): always returns 0 or 1; any error of the interpreter gives 1; -o is
+// refused with several inputs; -o FILE writes, into a truncated file, exactly the string that -o -
+// prints; selectors and files are handed to the interpreter in the order given.
+//@ func cli.Run [C01,C14]
+//@   requires !$faulted
+//@   updates $faulted, $out
+//@   init $ranProgram = false
+//@   init $truncating = false
+//@   after EvalProgram: $ranProgram = true
+//@   after EvalProgram: $progErr = ret1
+//@   after Evaluator.GetRootJson: $json = ret0
+//@   after os.Create: $truncating = true
+//@   ensures[C01,C14] exit-status-is-0-or-1: exitCode == 0 || exitCode == 1
+//@   ensures[C14] interpreter-error-means-status-1: $ranProgram && $progErr != nil ==> exitCode == 1
+//@   assert[C14] selectors-in-the-order-given-no-fuzzing: arg2 == rValues && !arg4 && len(arg1) == len(filePaths) @ EvalProgram
+//@   assert[C14] json-only-for-a-single-input: len(filePaths) <= 1 @ Evaluator.GetRootJson
+//@   assert[C14] file-gets-exactly-the-serialisation-and-is-truncated: arg1 == $json && $truncating @ (*os.File).WriteString
+//@   loop 0 invariant files-in-order: !$faulted && len(inputFiles) == rangeindex + 1 && !$ranProgram
